@@ -130,6 +130,8 @@ structure Encodable (x : Idx) : Prop where
   ofsLen : x.ofs32.length = x.ids.length
   ofsU32 : ∀ v ∈ x.ofs32, v < 4294967296
   ofs64U64 : ∀ v ∈ x.ofs64, v < 18446744073709551616
+  fanMono : fanMonotone x.fan = true
+  ofs64Len : x.ofs64.length ≤ x.ids.length
 
 /-- the opened file -/
 def fileOf (x : Idx) (ph ih : Bytes) : File :=
@@ -161,8 +163,14 @@ theorem File.at_encode (x : Idx) (hx : Encodable x) (ph ih : Bytes) (hph : ph.le
       (x.crcs.flatMap be32 ++ (x.ofs32.flatMap be32 ++ (x.ofs64.flatMap be64 ++ (ph ++ ih)))))
   rw [hx.fanLen] at h5
   have h6 : readU32 (be32 2) = some 2 := rfl
-  simp only [File.at, h1, if_false, h2, if_true, h3, h6, h4, h5, hx.fanLast, fileOf]
-  simp
+  have hm : ¬ ((!fanMonotone x.fan) = true) := by rw [hx.fanMono]; decide
+  have hsz : ¬ ((encodeFile x ph ih).length < 8 + 256 * 4 + x.ids.length * (20 + 4 + 4) + 2 * 20 ∨
+      (encodeFile x ph ih).length > 8 + 256 * 4 + x.ids.length * (20 + 4 + 4) + 2 * 20 + x.ids.length * 8) := by
+    rw [hlen]; have := hx.ofs64Len; omega
+  simp only [File.at, h1, if_false, h2, if_true, h3, h6, h4, h5, File.validate, hx.fanLast, fileOf]
+  rw [if_neg hm]
+  rw [if_neg (by decide : ¬ (2 : Nat) ≠ 2)]
+  rw [if_neg hsz]
 
 /-- the accessors on the encoded file give the encoded tables -/
 theorem fileOf_oidAt (x : Idx) (hx : Encodable x) (ph ih : Bytes) (i : Nat) (hi : i < x.ids.length) :
